@@ -376,6 +376,8 @@ class P:
             if self.at("["):
                 self.i += 1
                 ix = self.expr()
+                if self.eat(".."):
+                    ix = ("range", ix, None if self.at("]") else self.expr())
                 self.expect("]")
                 e = ("index", e, ix); continue
             return e
